@@ -1212,6 +1212,24 @@ def module_sets(draw, prof=None):
                     b.names.lower = saved
                     b.hide = set()
                 groups.append(d_)
+            # a table whose first column (a likely INDEX member) is named like an object of an earlier module
+            fobjs = [o for o in fobjs if not any(n['module'] == mname and n['name'] == o['name'] for n in b.nodes)]
+            if fobjs and 'table' in kinds and draw(st.booleans()):
+                o = draw(st.sampled_from(fobjs))
+                saved = b.names.lower
+                calls = []
+
+                def lower_(o=o, saved=saved, calls=calls):
+                    calls.append(1)
+                    return o['name'] if len(calls) == 3 else saved()     # table, row, first column
+                b.names.lower = lower_
+                b.hide = {o['name']}
+                try:
+                    d_ = _gen_table(b, mod)
+                finally:
+                    b.names.lower = saved
+                    b.hide = set()
+                groups.append(d_)
         if dialect == 'v2' and 'mi' in (prof['kinds'] or ('mi',)) and draw(st.integers(0, 3)):
             groups.append(_gen_mi(b, mod))
             has_mi = True
